@@ -9,12 +9,14 @@ root = os.path.dirname(os.path.dirname(os.path.abspath(__file__)))
 name = sys.argv[1]
 tier = "quick"
 props = None
+scratch = False
 args = sys.argv[2:]
 i = 0
 while i < len(args):
     if args[i] == "--tier": tier = args[i + 1]; i += 2
     elif args[i] == "--props": props = args[i + 1].split(","); i += 2
     elif args[i] == "--all": props = "all"; i += 1
+    elif args[i] == "--scratch": scratch = True; i += 1
     else: i += 1
 d = os.path.join(root, "seeded", name)
 meta = json.load(open(os.path.join(d, "meta.json")))
@@ -22,24 +24,45 @@ if props is None:
     props = [meta["property"]]
 if props == "all":
     props = [c["property_id"] for c in json.load(open(os.path.join(root, "MANIFEST.json")))["checks"]]
-st = subprocess.run(["git", "-C", "/repo", "status", "--porcelain"], capture_output=True, text=True).stdout.strip()
-if st:
-    print("refusing: /repo has uncommitted changes:\n" + st); sys.exit(2)
 out_dir = os.path.join(root, "build", "seeded", name)
 os.makedirs(out_dir, exist_ok=True)
 env = dict(os.environ, VERIF_EVIDENCE_DIR=out_dir, VERIF_REPLAY_DIR=out_dir)
-r = subprocess.run(["git", "-C", "/repo", "apply", os.path.join(d, "patch.diff")], capture_output=True, text=True)
+if scratch:
+    # leave /repo alone (other work may be building against it): a scratch worktree of /repo with the change applied,
+    # and a scratch worktree of /verif whose harness depends on that copy
+    repo, verif = "/tmp/seedrepo", "/tmp/vw-seed"
+    head = subprocess.run(["git", "-C", "/repo", "rev-parse", "HEAD"], capture_output=True, text=True).stdout.strip()
+    if not os.path.exists(repo):
+        subprocess.run(["git", "-C", "/repo", "worktree", "add", "--detach", repo, head], check=True, capture_output=True)
+    subprocess.run(["git", "-C", repo, "checkout", "--", "."], check=True)
+    subprocess.run(["git", "-C", repo, "checkout", "--detach", head], check=True, capture_output=True)
+    vhead = subprocess.run(["git", "-C", root, "rev-parse", "HEAD"], capture_output=True, text=True).stdout.strip()
+    if not os.path.exists(verif):
+        subprocess.run(["git", "-C", root, "worktree", "add", "--detach", verif, vhead], check=True, capture_output=True)
+    subprocess.run(["git", "-C", verif, "checkout", "--", "."], check=True)
+    subprocess.run(["git", "-C", verif, "checkout", "--detach", vhead], check=True, capture_output=True)
+    ct = os.path.join(verif, "harness", "Cargo.toml")
+    open(ct, "w").write(open(ct).read().replace('path = "/repo"', f'path = "{repo}"'))
+    import shutil
+    shutil.copy("/repo/Cargo.lock", os.path.join(verif, "harness", "Cargo.lock"))
+    check_root = verif
+else:
+    repo, check_root = "/repo", root
+    st = subprocess.run(["git", "-C", "/repo", "status", "--porcelain"], capture_output=True, text=True).stdout.strip()
+    if st:
+        print("refusing: /repo has uncommitted changes:\n" + st); sys.exit(2)
+r = subprocess.run(["git", "-C", repo, "apply", os.path.join(d, "patch.diff")], capture_output=True, text=True)
 if r.returncode != 0:
     print("patch does not apply:", r.stderr); sys.exit(2)
 results = {}
 try:
     for p in props:
-        r = subprocess.run([os.path.join(root, "check"), p, "--tier", tier], cwd=root, env=env, capture_output=True, text=True)
+        r = subprocess.run([os.path.join(check_root, "check"), p, "--tier", tier], cwd=check_root, env=env, capture_output=True, text=True)
         viol = [l for l in r.stdout.splitlines() if l.startswith("VIOLATION")]
         results[p] = {"exit": r.returncode, "violation": viol[0] if viol else None, "tail": r.stdout.strip().splitlines()[-1][:300] if r.stdout.strip() else ""}
         print(p, "exit", r.returncode, viol[0] if viol else "-")
 finally:
-    subprocess.run(["git", "-C", "/repo", "checkout", "--", "."], check=True)
+    subprocess.run(["git", "-C", repo, "checkout", "--", "."], check=True)
 json.dump(results, open(os.path.join(out_dir, f"results-{tier}.json"), "w"), indent=1)
 caught = [p for p, v in results.items() if v["exit"] == 1]
 print("CAUGHT by" if caught else "MISSED", caught)
